@@ -1143,3 +1143,37 @@ func genPGiant(r *rng, id string, cnt counters, emit func(line, out string)) *pE
 	emit("E", "E")
 	return e
 }
+
+// genPSABudget: a suffix-array parser fed one of the texts that exhaust the budget of the suffix
+// sort inside tandem-repeat groups (budgetText); the whole text is in the window, so Parse sorts
+// exactly these bytes. Model correspondence and the brute-force oracles apply.
+func genPSABudget(kind string, r *rng, id string, cnt counters, emit func(line, out string)) *pExec {
+	data := budgetText(r)
+	c := pcfg{kind: kind, f: map[string]int{}}
+	bs := len(data) + r.pick(0, 0, 1, 40)
+	c.f["BufferSize"] = bs
+	c.f["WindowSize"] = bs
+	c.f["ShrinkSize"] = r.pick(bs/2, 0, bs-1)
+	c.f["BlockSize"] = r.pick(bs, bs, 64, 100)
+	c.f["MinMatchLen"] = r.pick(3, 2, 4)
+	e, st := newPExec(c, cnt)
+	emit(e.header(id), fmt.Sprintf("S %s %s", id, st))
+	e.lines = append(e.lines, e.header(id))
+	if st != "ok" {
+		emit("E", "E")
+		return e
+	}
+	do := func(line string) string {
+		out := e.step(line)
+		emit(line, out)
+		return out
+	}
+	do("write " + hx(data))
+	fl := r.pick(0, 0, 1)
+	for g := 0; g < 12 && !e.dead && e.unparsed() > 0; g++ {
+		do(fmt.Sprintf("parse %d", fl))
+	}
+	cnt.inc("p.sabudget")
+	emit("E", "E")
+	return e
+}
